@@ -150,7 +150,7 @@ def flushed_bytes(calls, primary_root):
         if name == "openat" and ret is not None and ret >= 0:
             m = re.search(r'"([^"]*)"', args)
             if m:
-                fdmap[ret] = (m.group(1), "O_TRUNC" in args)
+                fdmap[ret] = (m.group(1), "O_TRUNC" in args, args)
         elif name == "close" and ret == 0:
             try:
                 fdmap.pop(int(args.split(",")[0]), None)
@@ -162,6 +162,7 @@ def flushed_bytes(calls, primary_root):
             except ValueError:
                 continue
             ent = fdmap.get(fd)
-            if ent and ent[0].endswith("stream.obs") and not ent[1] and os.path.normpath(ent[0]).startswith(os.path.normpath(primary_root)):
+            # the primary stream is the one under primary_root (relocation copies go to the final directory)
+            if ent and ent[0].endswith("stream.obs") and "O_WRONLY" in ent[2] and os.path.normpath(ent[0]).startswith(os.path.normpath(primary_root)):
                 out[os.path.normpath(ent[0])] = out.get(os.path.normpath(ent[0]), 0) + ret
     return out
